@@ -1,0 +1,17 @@
+//go:build verif
+
+// Contracts for the explorer backend's start-up code, checked by /verif (govc). Comment-only file.
+package main
+
+// run is start-up code the engine does not execute. What C19 needs from it: the consumer is
+// built on the guardian set store that was filled from the chain starting at index 0 (so that
+// list position = set index), and every gossiped VAA is pushed decoded together with exactly
+// the bytes it was decoded from.
+//@ func run(cmd *cobra.Command, args []string)
+//@   props C19
+//@   assume-contract
+//@   wiring guardiansets.GetGuardianSetsFromChain: $arg3 == 0
+//@   wiring guardiansets.NewGuardianSets: $arg0 $arg5 == guardianSetList guardianSetC
+//@   wiring processor.NewVAAGossipConsumer: $arg0 $arg1 $arg2 == guardianSets deduplicator messageQueue
+//@   wiring vaa.Unmarshal: $arg0 == sVaa.Vaa
+//@   wiring vaaGossipConsumer.Push: $arg1 $arg2 == v sVaa.Vaa
